@@ -15,7 +15,7 @@ CLAIMED = {
          "the hash tree plus the write ordering of ImmuStore.sync (value logs, tx log and hash tree are flushed and synced before any commit-log entry is appended, and the commit log is synced before the synced frontier moves), decided on a recording appendable; recovery of the whole store (store.OpenWith), the index, repeated crashes and concurrent committers are outside the claim; crash model and granularity are listed in the evidence", "DESIGN.md §4 C03"),
  "C04": ("what reaches the index: for every bulk of committed transactions within the bounds (bulk size, entries per tx, symbolic keys and non-indexable flags) the plain indexer hands the tree exactly one (key, tx id) per indexable entry, in order, with intact key content, and only advances the logical time when nothing is indexable; scans over a snapshot (real NewKeyReader/Read/ReadBetween with the deleted/expired filters, offset, tx range) return exactly the matching live keys in order; History (store and snapshot) numbers every version by its position in commit order on every page; SQL secondary-index entries derived from row values order rows exactly as (indexed columns, primary key) with NULL first",
          "tx reader, semaphore, watchers and the tree (tree reader / tree history under the scan and history harnesses) are stubs/recorders; mapped and injective indexes, seek/end/prefix bounds, pkg/database wrappers, the asynchronous indexer and restart are outside the claim", "DESIGN.md §4 C04"),
- "C06": ("the sequential mechanism behind conditional writes only: a write carrying preconditions (must exist / must not exist / not modified after tx) is admitted iff every precondition holds on the index state it is evaluated on, for every symbolic state and precondition list within the bounds; malformed preconditions are rejected",
+ "C06": ("the sequential mechanism behind conditional writes only: a write carrying preconditions (must exist / must not exist / not modified after tx) is admitted iff every precondition holds on the index state it is evaluated on, for every symbolic state and precondition list within the bounds; malformed preconditions are rejected; db.Get reads the index only after waiting for SinceTx / the committed frontier (unless NoWait or AtTx), and AtRevision selects exactly the version with that revision number",
          "linearizability of concurrent histories is NOT decided (no schedules); the index is a symbolic model behind stubs of the KeyIndex methods; wait gating of reads/writes not covered yet", "DESIGN.md §4 C06"),
  "C05": ("validation soundness of MVCC read-sets for point reads, prefix reads and range scans (no phantoms) in a two-phase sequential model: if commit-time validation passes, every recorded read re-evaluated on the commit-time state yields what the transaction observed; no spurious conflict when nothing changed",
          "the index under the snapshot is a symbolic 3-key model behind stubs of the Snapshot methods; prefix fingerprints, bounded or reset readers, real interleavings and the locking discipline are outside the claim", "DESIGN.md §4 C05"),
